@@ -500,7 +500,7 @@ fn gen_ops(r: &mut Rng, w: &[u32; NK], n: usize, ops: &mut Vec<Op>, depth: &mut 
                         }
                         (*r.pick(t), ErrTy::Small)
                     }
-                    None => (*r.pick(&ALL_TTY), *r.pick(&[ErrTy::Small, ErrTy::Small, ErrTy::Big, ErrTy::Aligned])),
+                    None => (*r.pick(&ALL_TTY), *r.pick(&[ErrTy::Small, ErrTy::Small, ErrTy::Small, ErrTy::Big, ErrTy::Big, ErrTy::Aligned, ErrTy::Aligned, ErrTy::Aligned256])),
                 };
                 Op::TryWith {
                     try_,
